@@ -175,3 +175,104 @@ Proof.
     + cbn [vexec vstep1 set_key g_key]. unfold on_map. rewrite R. destruct m as [kvs|]; cbn [vexec]; apply vp_res_rel_refl.
     + rewrite (str_key_not_wt _ _ W S). apply vp_res_rel_refl.
 Qed.
+
+(* ================================================================== List.Set / Append *)
+Lemma str_val_none t v : pval_to_elem t v = None -> str_val_okb t v = true ->
+  match t with TScalar KString => @None (option elem) | _ => Some None end = Some None.
+Proof.
+  intros P S. destruct t as [k|m]; [|reflexivity]. destruct k; try reflexivity. unfold str_val_okb in S. rewrite P in S. discriminate.
+Qed.
+
+Lemma list_set_prog_correct : list_set_prog_stmt.
+Proof.
+  intros sch h t r i v Hwf Hok Hs. unfold vp_agrees, vp_canon_step. cbn [vp_step canon_list vl_set]. unfold run_view.
+  cbn [vexec vstep1 step a_value]. rewrite val_conv_canon. destruct (pval_to_elem t v) as [e|] eqn:P.
+  - cbn [vexec vstep1 set_val g_val a_int]. unfold on_list, vpanic. destruct (read_list h r) as [l|]; [|apply vp_res_rel_refl].
+    destruct (in_bounds i (olen l)); cbn [vexec]; apply vp_res_rel_refl.
+  - rewrite (str_val_none _ _ P Hs). unfold vpanic. destruct (read_list h r); apply vp_res_rel_refl.
+Qed.
+
+Lemma list_append_prog_correct : list_append_prog_stmt.
+Proof.
+  intros sch h t r v Hwf Hok Hs. unfold vp_agrees, vp_canon_step. cbn [vp_step canon_list vl_append]. unfold run_view.
+  cbn [vexec vstep1 step a_value]. rewrite val_conv_canon. destruct (pval_to_elem t v) as [e|] eqn:P.
+  - cbn [vexec vstep1 set_val g_val]. unfold on_list, vpanic. destruct (read_list h r) as [l|]; cbn [vexec]; apply vp_res_rel_refl.
+  - rewrite (str_val_none _ _ P Hs). unfold vpanic. destruct (read_list h r); apply vp_res_rel_refl.
+Qed.
+
+(* ================================================================== List.Truncate *)
+Lemma set_nth_twice {A} (l : list A) : forall i x y, set_nth (set_nth l i x) i y = set_nth l i y.
+Proof. induction l as [|a l IH]; intros [|i] x y; cbn [set_nth]; try reflexivity. rewrite IH. reflexivity. Qed.
+
+Lemma firstn_set_nth {A} (l : list A) : forall i x, firstn i (set_nth l i x) = firstn i l.
+Proof. induction l as [|a l IH]; intros [|i] x; cbn [set_nth firstn]; try reflexivity. rewrite IH. reflexivity. Qed.
+
+Lemma firstn_of_S {A} (l l' : list A) i : firstn (S i) l = firstn (S i) l' -> firstn i l = firstn i l'.
+Proof.
+  intro H. assert (X : forall m : list A, firstn i m = firstn i (firstn (S i) m)).
+  { intro m. rewrite firstn_firstn. rewrite Nat.min_l by lia. reflexivity. }
+  rewrite (X l), (X l'), H. reflexivity.
+Qed.
+
+Lemma hset_twice h id x y : hset (hset h id x) id y = hset h id y.
+Proof. unfold hset. apply set_nth_twice. Qed.
+
+Lemma write_write_list h r l a b : read_list h r = Some l -> write_list (write_list h r a) r b = write_list h r b.
+Proof.
+  destruct r as [o f|v|]; cbn [read_list write_list]; [| |reflexivity].
+  - destruct (get_obj h o) as [ob|] eqn:G; [|discriminate]. intros _.
+    rewrite get_obj_hset_eq by (eapply get_obj_lt; eauto). rewrite hset_twice. unfold set_cell. cbn [o_mid o_cells o_oneofs o_unk].
+    rewrite set_nth_twice. reflexivity.
+  - intros _. apply hset_twice.
+Qed.
+Lemma write_write_map h r l a b : read_map h r = Some l -> write_map (write_map h r a) r b = write_map h r b.
+Proof.
+  destruct r as [o f|v|]; cbn [read_map write_map]; [| |reflexivity].
+  - destruct (get_obj h o) as [ob|] eqn:G; [|discriminate]. intros _.
+    rewrite get_obj_hset_eq by (eapply get_obj_lt; eauto). rewrite hset_twice. unfold set_cell. cbn [o_mid o_cells o_oneofs o_unk].
+    rewrite set_nth_twice. reflexivity.
+  - intros _. apply hset_twice.
+Qed.
+
+(* the zeroing loop of Truncate on a non-nil slice, from an index i >= 0: it ends, keeps the length and the first i elements,
+   and what it wrote is overwritten by the next write of the slice *)
+Lemma zero_loop_some : forall fuel h r x i, read_list h r = Some (Some x) -> (0 <= i)%Z -> length x - Z.to_nat i < fuel ->
+  exists h' x', zero_loop fuel h r i = Some (Some h') /\ read_list h' r = Some (Some x') /\ length x' = length x /\
+                firstn (Z.to_nat i) x' = firstn (Z.to_nat i) x /\ (forall b, write_list h' r b = write_list h r b) /\
+                ((Z.of_nat (length x) <= i)%Z -> h' = h).
+Proof.
+  induction fuel as [|fu IH]; intros h r x i R I F; [lia|].
+  cbn [zero_loop]. rewrite R. cbn [olen olist]. destruct (i <? Z.of_nat (length x))%Z eqn:E.
+  - assert (I' : (0 <=? i)%Z = true) by lia. rewrite I'.
+    set (x1 := set_nth x (Z.to_nat i) (EPtr None)). set (h1 := write_list h r (Some x1)).
+    assert (R1 : read_list h1 r = Some (Some x1)) by (eapply read_write_list; eauto).
+    assert (L1 : length x1 = length x) by apply set_nth_length.
+    destruct (IH h1 r x1 (i + 1)%Z R1) as [h' [x' [Z1 [Z2 [Z3 [Z4 [Z5 _]]]]]]]; [lia|lia|].
+    exists h', x'. split; [exact Z1|]. split; [exact Z2|]. split; [congruence|]. split; [|split; [|lia]].
+    + replace (Z.to_nat (i + 1)) with (S (Z.to_nat i)) in Z4 by lia. apply firstn_of_S in Z4. rewrite Z4. apply firstn_set_nth.
+    + intro b. rewrite Z5. unfold h1. eapply write_write_list; eauto.
+  - exists h, x. repeat split; auto.
+Qed.
+
+Lemma list_truncate_prog_correct : list_truncate_prog_stmt.
+Proof.
+  intros sch h t r n Hwf Hok. unfold vp_agrees, vp_canon_step. cbn [vp_step canon_list vl_truncate]. unfold run_view.
+  cbn [step]. destruct t as [k|m]; cbn [app].
+  - cbn [vexec vstep1 a_int]. unfold on_list, vpanic. destruct (read_list h r) as [l|]; [|apply vp_res_rel_refl].
+    destruct ((0 <=? n) && (n <=? Z.of_nat (olen l)))%Z; cbn [vexec]; apply vp_res_rel_refl.
+  - cbn [vexec vstep1 a_int]. destruct (read_list h r) as [l|] eqn:R.
+    2:{ cbn [zero_loop]. rewrite R. apply vp_res_rel_refl. }
+    destruct l as [x|].
+    + destruct (0 <=? n)%Z eqn:N0.
+      * destruct (zero_loop_some (S (olen (Some x))) h r x n R) as [h' [x' [Z1 [Z2 [Z3 [Z4 [Z5 Z6]]]]]]]; [lia|cbn [olen]; lia|].
+        rewrite Z1. cbn [vexec vstep1 a_int]. unfold on_list, vpanic. rewrite Z2. cbn [olen andb]. rewrite Z3.
+        destruct (n <=? Z.of_nat (length x))%Z eqn:N1; cbn [vexec].
+        -- rewrite Z5, Z4. apply vp_res_rel_refl.
+        -- rewrite Z6 by lia. apply vp_res_rel_refl.
+      * cbn [zero_loop]. rewrite R. cbn [olen andb].
+        assert (E : (n <? Z.of_nat (length x))%Z = true) by lia. rewrite E, N0. apply vp_res_rel_refl.
+    + cbn [olen zero_loop]. rewrite R. cbn [olen]. change (Z.of_nat 0) with 0%Z. destruct (n <? 0)%Z eqn:E.
+      * assert (N0 : (0 <=? n)%Z = false) by lia. rewrite N0. cbn [andb]. apply vp_res_rel_refl.
+      * assert (N0 : (0 <=? n)%Z = true) by lia. rewrite N0. cbn [vexec vstep1 a_int andb]. unfold on_list, vpanic. rewrite R. cbn [olen].
+        change (Z.of_nat 0) with 0%Z. destruct (n <=? 0)%Z; cbn [vexec]; apply vp_res_rel_refl.
+Qed.
